@@ -98,14 +98,14 @@ func (e *env) receiveWire(chID byte, bz []byte) (disconnected bool, pval interfa
 	pkt(0x7e, []byte{1}, 1)
 	done := make(chan error, 1)
 	go func() {
-		e.pipe.SetWriteDeadline(time.Now().Add(10 * time.Second))
+		e.pipe.SetWriteDeadline(time.Now().Add(120 * time.Second))
 		_, werr := e.pipe.Write(buf)
 		done <- werr
 	}()
 	select {
 	case <-e.sentinel:
-	case <-time.After(15 * time.Second):
-		return false, nil, fmt.Errorf("connection did not consume the message within 15 s")
+	case <-time.After(180 * time.Second):
+		return false, nil, fmt.Errorf("connection did not consume the message within 180 s")
 	}
 	if pe := e.peerError(); pe != nil {
 		return true, pe, nil
@@ -403,8 +403,9 @@ func runTrace(ti int, tr mbt.Trace, rep *mbt.Report) {
 			label = "gossip:" + mbt.Str(st.Args[0])
 			ok = r.gossip(si, st)
 		case "Other":
-			ok = r.other(si, st)
+			r.other(si, st) // a failing class does not keep the others of the batch from running
 			r.e = nil
+			ok = true
 		default:
 			r.fail(si, st.A, "error", false, "", "unknown step "+st.A, nil, nil)
 			ok = false
@@ -472,19 +473,22 @@ func runChild(ti int, tr mbt.Trace, key string, rep *mbt.Report) {
 		}
 		inputs := 0
 		for _, st := range tr.Steps {
-			if st.A == "Input" {
+			if st.A == "Input" || st.A == "Other" {
 				inputs++
 			}
 		}
 		if fatal && inputs > 1 {
 			// find the input that kills the process: one child per input
 			for si, st := range tr.Steps {
-				if st.A != "Input" {
+				if st.A != "Input" && st.A != "Other" {
 					continue
 				}
 				one := mbt.Trace{ID: fmt.Sprintf("%s-step%d", tr.ID, si), Cfg: tr.Cfg, Init: tr.Init, Steps: []mbt.Step{tr.Steps[0], st}}
 				k := key
-				if m, err := parseMsg(st.Args[0]); err == nil {
+				if st.A == "Other" {
+					one.Steps = []mbt.Step{st}
+					k = mbt.Str(st.Args[0]) + ":" + mbt.Str(st.Args[1])
+				} else if m, err := parseMsg(st.Args[0]); err == nil {
 					k = m.key()
 				}
 				before := len(rep.Failures)
@@ -555,5 +559,6 @@ func main() {
 		}
 		runTrace(ti, tr, rep)
 	}
+	closeRefChain()
 	rep.Emit()
 }
